@@ -436,6 +436,21 @@ def rule_split(ctx: Ctx, prog: Program) -> None:
             if not big or not small or len(big) + len(small) != len(consts):
                 continue
             idx = l.index
+            # the threshold of the conditional must be the remainder of the SAME division as the quotient (same size, same number of parts)
+            foreign = []
+            for bp in big + small:
+                for cnd in bp.state.facts.conds:
+                    if idx.single_atom() in atoms_in(cnd):
+                        for a_ in atoms_in(cnd):
+                            if isinstance(a_, tuple) and a_[0] == "mod" and Aff.atom(a_) != rr and a_ not in foreign:
+                                foreign.append(a_)
+            if foreign:
+                decided = True
+                ctx.violation("R-SPLIT", fn.path, "Problem.split", "covers-domain", f"{fn.path}:{getattr(l.node, 'lineno', 0)}",
+                              f"the extra value is given to the parts below {show_val(Aff.atom(foreign[0]))}, which is not the remainder of the division that "
+                              f"gives the part size ({show_val(rr)}): the sizes no longer add up to the size of the split domain (parts run past its maximum "
+                              "or stop short of it)")
+                continue
             for d in (0, 1, -1, 2, -2):
                 okb = all(bp.state.facts.decide(cmp_cond("<=", idx, rr.addc(d - 1))) is True for bp in big)
                 oks = all(bp.state.facts.decide(cmp_cond(">=", idx, rr.addc(d))) is True for bp in small)
